@@ -493,6 +493,12 @@ def gen_program(st, flavour, tier):
         case["targets"] = sorted(rp_.sample(range(n), rp_.randint(1, n)))
     if rk.random() < fl["graph_drop"] and n > 2:
         case["graph_drop"] = sorted(rp_.sample(range(n), 1))
+    if (flavour in ("C04", "C01") and not sac and any(nd.get("late") for nd in nodes) and rk.random() < 0.7):
+        # a long-lived process: everything registered so far was evaluated once through the default group's own table,
+        # THEN the late implementations are plugged into their registry points, then comes the evaluation under test
+        case["pre_eval_group"] = True
+        case["targets"] = None
+        case["graph_drop"] = []
     for o in range(rk.choice([0, 1, 2, 3]) if fl["observers"] else 0):
         case["observers"].append({"name": "o%d" % o, "h": rk.getrandbits(40),
                                   "on": rk.choice(["all", "all", "rule", "datasource", "parser", "plugin"]),
@@ -584,6 +590,8 @@ def gen_driver(st, case, flavour, kinds=None):
             return {"kind": "rerun", "late_enable": sorted(rs.sample(late, min(len(late), rs.choice([1, 1, 2]))))}
     if k != "order" and not case.get("graph_drop") and rs.random() < 0.25:
         d["entry"] = rs.choice(["list", "single", "group"])        # dr.run([components]) / dr.run(component) / the group's table
+    if case.get("pre_eval_group") and k == "run" and rs.random() < 0.7:
+        d["entry"] = "group_object"
     if not k.endswith("_n") and rs.random() < 0.1:
         d["seed_broker"] = True                           # dr.Broker(seed_broker): a broker copied from a prepared one
     if k == "order":
@@ -1060,6 +1068,17 @@ class World(object):
             # plugged into their registry points (a spec-set sub-class defined later), then the real evaluation follows
             for o in objs:
                 dr.get_dependency_graph(o)
+            if case.get("pre_eval_group"):
+                b0 = dr.Broker()
+                if case["hostctx"]:
+                    b0[HostContext] = HostContext()
+                try:
+                    dr.run(dr.COMPONENTS[dr.GROUPS.single], broker=b0)
+                except HarnessError:
+                    raise
+                except Exception:
+                    pass              # whatever escapes here escapes from the evaluation under test as well
+                self.fired("default_group_evaluated_before_late_registrations")
             for rp, more in late:
                 for im in more:
                     dr.add_dependency(rp, im)
@@ -1200,7 +1219,10 @@ def run_driver(world, driver, graph):
     if entry and kind != "order" and not world.case.get("graph_drop"):
         # other documented forms of the 'components' argument: resolved by the real determine_components()
         tg = world.case["targets"] if world.case["targets"] is not None else list(range(len(world.objs)))
-        if entry == "group" and world.case["targets"] is None:
+        if entry == "group_object" and world.case["targets"] is None and not world.case.get("sac"):
+            graph = dr.COMPONENTS[dr.GROUPS.single]          # the table itself, as dr.run() with no argument takes it
+            world.fired("entry_group_object")
+        elif entry == "group" and world.case["targets"] is None:
             # the engine's own table of the default group (what dr.run() with no components evaluates), restricted to
             # the generated program the way insights._run restricts it to the loaded plugins: the table's own value sets
             graph = dict((k, v) for k, v in dr.COMPONENTS[dr.GROUPS.single].items() if k in world.idx)
@@ -1320,6 +1342,8 @@ def broker_signature(world, brokers):
                 if not isinstance(tb, str) or type(e).__name__ not in tb:
                     tb_bad.append((cname(k), kind_of(e), tag_of(e)))
         for k, m in b.missing_requirements.items():
+            if k not in idx:
+                continue              # (the default group holds the shipped registry points as well: nobody implements them here)
             miss[cname(k)] = canon_missing(m)
     return {"vals": vals, "excs": sorted(excs), "miss": miss, "conflicts": conflicts, "tb_bad": tb_bad,
             "foreign": foreign}
@@ -2024,6 +2048,8 @@ def gen_bundle(st, case):
         # the same program entered through the other documented forms of the 'components' argument
         if case["targets"] is None and rs.random() < 0.35:
             bundle.append({"kind": "run", "entry": "group"})           # the default group's own table (dr.run() with no argument)
+        if case["targets"] is None and case.get("pre_eval_group"):
+            bundle.append({"kind": "run", "entry": "group_object"})
         if rs.random() < 0.2:
             bundle.append({"kind": rs.choice(["run", "incr", "all"]), "entry": "list"})
     return bundle
